@@ -53,17 +53,23 @@ FirstReps == { 0, 1, 2, 127, 128, 129, 130, 191, 192, 193, 223, 224, 225, 239, 2
                251, 252, 253, 254, 255 }
 Str(n, F, A) == { << x >> \o t : x \in F, t \in [1..(n - 1) -> A] }
 
-BytesU ==
-  IF Kind # "bytes" THEN {} ELSE
-  { << >> } \cup Str(1, 0..255, Alpha) \cup Str(2, 0..255, Alpha)
-    \cup Str(3, 0..255, IF Thorough THEN Alpha ELSE AlphaM)
-    \cup Str(4, FirstReps, IF Thorough THEN Alpha ELSE AlphaM)
-    \cup Str(5, FirstReps, IF Thorough THEN AlphaM ELSE AlphaS)
-    \* long prefixes (5 and 6 size bytes, and the refused 7): need 6..8 bytes to be complete
-    \cup UNION { Str(n, { 248, 251, 252, 253, 254 }, { 0, 1, 255 }) : n \in 6..(IF Thorough THEN 8 ELSE 7) }
-    \* cons cells whose children use non-minimal prefixes
-    \cup { << 255 >> \o x \o y : x \in { << 129, 5 >>, << 192, 0 >>, << 192, 1, 200 >>, << 128 >>, << 5 >> },
-                                y \in { << 129, 5 >>, << 192, 0 >>, << 224, 0, 1, 9 >>, << 128 >>, << 129, 200 >> } }
+\* The byte-string universe is never built as one set: seed (n, x) stands for the strings of
+\* length n with first byte x, enumerated by the worker that picks the seed up.
+AlphaFor(n) == IF n <= 2 THEN Alpha
+               ELSE IF n = 3 THEN (IF Thorough THEN Alpha ELSE AlphaM)
+               ELSE IF n = 4 THEN (IF Thorough THEN Alpha ELSE AlphaM)
+               ELSE IF n = 5 THEN (IF Thorough THEN AlphaM ELSE AlphaS)
+               ELSE { 0, 1, 255 }       \* long prefixes (5, 6 and the refused 7 size bytes) need 6..8 bytes
+FirstFor(n) == IF n <= 3 THEN 0..255 ELSE IF n <= 5 THEN FirstReps ELSE { 248, 251, 252, 253, 254 }
+MaxLen == IF Thorough THEN 8 ELSE 7
+\* cons cells whose children use non-minimal prefixes
+ConsExtras == { << 255 >> \o x \o y : x \in { << 129, 5 >>, << 192, 0 >>, << 192, 1, 200 >>, << 128 >>, << 5 >> },
+                                     y \in { << 129, 5 >>, << 192, 0 >>, << 224, 0, 1, 9 >>, << 128 >>, << 129, 200 >> } }
+BytesSeeds == { [kind |-> "seed", n |-> 0, x |-> 0] }
+                \cup { [kind |-> "seed", n |-> n, x |-> x] : n \in 1..3, x \in 0..255 }
+                \cup { [kind |-> "seed", n |-> n, x |-> x] : n \in 4..5, x \in FirstReps }
+                \cup { [kind |-> "seed", n |-> n, x |-> x] : n \in 6..MaxLen, x \in { 248, 251, 252, 253, 254 } }
+BytesOf(sd) == IF sd.n = 0 THEN { << >> } \cup ConsExtras ELSE Str(sd.n, { sd.x }, AlphaFor(sd.n))
 
 ---------------------------------------------------------------------------
 (* length prefixes *)
@@ -140,7 +146,7 @@ Sizes == { << >>,
 
 Cases ==
   CASE Kind = "tree" -> { [kind |-> "tree", t |-> t] : t \in Trees }
-    [] Kind = "bytes" -> { [kind |-> "bytes", b |-> b] : b \in BytesU }
+    [] Kind = "bytes" -> { }                    \* see BytesSeeds
     [] Kind = "limit" -> { [kind |-> "limit", t |-> t, L |-> L] : t \in TreesLim, L \in 0..202 }
     [] Kind = "prefix" -> { [kind |-> "prefix", n |-> n, fill |-> x, k |-> k] : n \in Sizes, x \in { 0, 128 }, k \in 0..7 }
 
@@ -150,10 +156,11 @@ Cases ==
 CaseSeq == SE!SetToSeq(Cases)
 NSeeds == 64
 Chunk == (Len(CaseSeq) + NSeeds - 1) \div NSeeds
-Init == c \in { [kind |-> "seed", i |-> i] : i \in 0..(NSeeds - 1) }
-Next == IF c.kind = "seed"
-        THEN \E j \in (c.i * Chunk + 1)..Min2((c.i + 1) * Chunk, Len(CaseSeq)) : c' = CaseSeq[j]
-        ELSE UNCHANGED c
+Init == IF Kind = "bytes" THEN c \in BytesSeeds
+        ELSE c \in { [kind |-> "seed", i |-> i] : i \in 0..(NSeeds - 1) }
+Next == IF c.kind # "seed" THEN UNCHANGED c
+        ELSE IF Kind = "bytes" THEN \E b \in BytesOf(c) : c' = [kind |-> "bytes", b |-> b]
+        ELSE \E j \in (c.i * Chunk + 1)..Min2((c.i + 1) * Chunk, Len(CaseSeq)) : c' = CaseSeq[j]
 
 Emit(r) == PrintT(<< "CASE", ToJson(r) >>)
 
